@@ -6,6 +6,7 @@ operation the result (or exception class) and the plain view of every live
 handle are compared with a small executable model written from the docstrings.
 No schedule or fault dimension exists here and none is pretended (DESIGN.md §7).
 """
+import unicodedata
 import math
 
 from sim import canon
@@ -28,8 +29,10 @@ DEFAULTS = ['n:', 'i:0', 'i:3', 'f:1.5', 'f:3.0', 'f:3.7', 's:abc', 's:', 's:3',
             'l:', 'd:', 'f:inf', 'f:-inf', 'f:nan', 's:1.5', 's:true', 's:null', 'i:1']
 
 
-KEYS = ['a', 'b', 'c', 'ab', 'A', 'f', 'x_y', 'k-1']
-ABSENT = ['zz', 'a', 'b', 'B', 'abc', 'x-y', 'new1']
+# (keys with a Unicode twin: precomposed / combining accent, MICRO SIGN / Greek mu, the fi
+# ligature, a fullwidth letter - distinct strings, hence distinct keys)
+KEYS = ['a', 'b', 'c', 'ab', 'A', 'f', 'x_y', 'k-1', 'caf\u00e9', '\u00b5_max', 'file']
+ABSENT = ['zz', 'a', 'b', 'B', 'abc', 'x-y', 'new1', 'cafe\u0301', '\u03bc_max', '\ufb01le', '\uff41', 'a ']
 TEXT_VALUES = ['[1, 2]', '{p: 1}', 'plain', '7', '[]', '{}', '0x1F']
 OP_TABLE = (['has_attribute'] * 2 + ['get_attribute'] * 4 + ['set_attribute'] * 5
             + ['remove_attribute'] * 2 + ['rename_attribute'] * 2 + ['has_attribute_type'] * 3
@@ -333,6 +336,8 @@ class NodeModel(Engine):
             ident = p.replace('-', '_')
             if ident in used or not ident.isidentifier():
                 continue    # two keys mapping to one identifier: no such class exists
+            if unicodedata.normalize('NFKC', ident) != ident:
+                continue    # Python itself would rename this parameter (PEP 3131)
             used.add(ident)
             params.append((p, d))
         req = [p for p, d in params if d == 'req']
